@@ -3,9 +3,11 @@
 EXTENDS OutcomeCases
 
 VARIABLE case
-GenInit == case \in Cases
+GenInit == case \in Cases \cup Cases2
 GenNext == UNCHANGED case
 GenSpec == GenInit /\ [][GenNext]_case
 Emit ==
-  PrintT(<<"REPLAY", ToJson([comps |-> case.comps, contour |-> case.contour, cyclic |-> Cyclic(case.comps)])>>)
+  IF "comps" \in DOMAIN case
+  THEN PrintT(<<"REPLAY", ToJson([comps |-> case.comps, contour |-> case.contour, cyclic |-> Cyclic(case.comps)])>>)
+  ELSE PrintT(<<"REPLAY", ToJson([reg |-> case.reg, bold |-> case.bold, cyclic |-> Cyclic2(case)])>>)
 =============================================================================
